@@ -287,6 +287,7 @@ type factCache struct {
 	fn     *ssa.Function
 	ifs    []*ssa.If
 	reach  map[[2]int]map[*ssa.BasicBlock]bool // (block index, succ) -> reachable without that edge
+	live   map[*ssa.BasicBlock]bool
 	recovr *ssa.BasicBlock
 }
 
@@ -325,6 +326,12 @@ func (fc *factCache) edgeDominates(from *ssa.BasicBlock, succ int, target *ssa.B
 func condFacts(b *ssa.BasicBlock) []Fact {
 	fn := b.Parent()
 	fc := factsFor(fn)
+	if fc.live == nil {
+		fc.live = reachableWithoutEdge(fn, nil, -1)
+	}
+	if !fc.live[b] {
+		return nil // e.g. the synthetic recover block: not reachable from entry, every "fact" would hold vacuously
+	}
 	var out []Fact
 	for _, iff := range fc.ifs {
 		ib := iff.Block()
